@@ -48,6 +48,21 @@ pub fn calls_json(calls: &[Call]) -> Vec<Value> {
         .collect()
 }
 
+/// The same, with the pieces of one `write_all` (consecutive writes at contiguous positions) joined: the unit DirOps speaks about.
+pub fn calls_json_joined(calls: &[Call]) -> Vec<Value> {
+    let mut out: Vec<Value> = Vec::new();
+    for c in calls_json(calls) {
+        if let Some(last) = out.last_mut() {
+            if last[0] == "write" && c[0] == "write" && last[1].as_u64().unwrap_or(0) + last[2].as_u64().unwrap_or(0) == c[1].as_u64().unwrap_or(u64::MAX) {
+                last[2] = json!(last[2].as_u64().unwrap_or(0) + c[2].as_u64().unwrap_or(0));
+                continue;
+            }
+        }
+        out.push(c);
+    }
+    out
+}
+
 fn lcp(a: &[u8], b: &[u8]) -> usize {
     a.iter().zip(b.iter()).take_while(|(x, y)| x == y).count()
 }
@@ -67,7 +82,7 @@ pub fn observe(dest: &RecDest, buf: &[u8], calls_from: usize) -> Value {
         "prefixIntact": dest.prefix_intact(),
         // first pre-existing byte beyond the end of the image that was modified (-1: none)
         "tailMod": tail_mod.map(|x| x as i64).unwrap_or(-1),
-        "calls": calls_json(&dest.calls[calls_from..]),
+        "calls": calls_json_joined(&dest.calls[calls_from..]),
     })
 }
 
@@ -112,6 +127,13 @@ pub fn replay_history(hist: &[Value], hid: u64, tr: &mut Trace, origin: &str) {
             "flush" => {
                 let entry = op["entry"].as_bool().unwrap_or(false);
                 ev["entry"] = json!(entry);
+                // "short": n - the destination takes only n bytes of the first write of this flush (and everything afterwards)
+                if let Some(n) = op.get("short").and_then(|v| v.as_u64()) {
+                    let mut d = shared.0.borrow_mut();
+                    let k = d.ncalls;
+                    d.short_at = Some((k, n as usize, false));
+                    ev["short"] = json!(n);
+                }
                 let dirent = entry.then(|| MDRawDirectory { stream_type: stream_no, location: last_grow });
                 if entry {
                     stream_no += 1;
@@ -145,11 +167,11 @@ pub fn random_history(r: &mut Rng) -> Vec<Value> {
     for _ in 0..r.range(1, if big { 12 } else { 40 }) {
         match r.below(3) {
             0 => h.push(json!({"op":"grow","n": if r.chance(1, 5) { 0 } else if big && r.chance(1, 3) { *r.pick(&[65536u64, 1 << 20, (1 << 20) + 1, 3 << 20, (5 << 20) + 7]) } else { r.below(3000) }})),
-            1 => h.push(json!({"op":"flush","entry":false})),
+            1 => h.push(if r.chance(1, 4) { json!({"op":"flush","entry":false,"short":r.range(1, 40)}) } else { json!({"op":"flush","entry":false}) }),
             _ => {
                 if used < slots {
                     used += 1;
-                    h.push(json!({"op":"flush","entry":true}));
+                    h.push(if r.chance(1, 4) { json!({"op":"flush","entry":true,"short":r.range(1, 40)}) } else { json!({"op":"flush","entry":true}) });
                 }
             }
         }
